@@ -4,6 +4,7 @@ import (
 	"verifharness/checks/c01"
 	"verifharness/checks/c02"
 	"verifharness/checks/c09"
+	"verifharness/checks/c10"
 	"verifharness/checks/c16"
 	"verifharness/checks/c18"
 )
@@ -12,6 +13,7 @@ func init() {
 	registry["C01"] = entry{"exploration", c01.Run}
 	registry["C02"] = entry{"fault_enumeration", c02.Run}
 	registry["C09"] = entry{"exploration", c09.Run}
+	registry["C10"] = entry{"fault_enumeration", c10.Run}
 	registry["C16"] = entry{"exploration", c16.Run}
 	registry["C18"] = entry{"exploration", c18.Run}
 	registry["C03"] = entry{"model_checking", c18.Run03A}
